@@ -589,6 +589,43 @@ func ruleDequeIterTermination(c *Ctx, r *R) {
 		r.undecided("deque.dequeIterator.Next|missing", token.NoPos, "anchor not found")
 		return
 	}
+	// an iterator that walks a snapshot through an inner iterator (iterator.Join over the occupied segments of d.a) ends when
+	// that iterator ends: every return hands on the inner iterator's answer and Next reads no element storage itself
+	{
+		delegates, reads := true, false
+		nRet := 0
+		instrs(fn, func(b *ssa.BasicBlock, i int, in ssa.Instruction) {
+			if ia, ok := in.(*ssa.IndexAddr); ok {
+				if f, _, ok := rootField(ia.X); ok && f == "a" {
+					reads = true
+				}
+			}
+			ret, ok := in.(*ssa.Return)
+			if !ok || len(ret.Results) != 2 {
+				return
+			}
+			nRet++
+			ex, ok := ret.Results[0].(*ssa.Extract)
+			if !ok {
+				delegates = false
+				return
+			}
+			call, ok := ex.Tuple.(*ssa.Call)
+			if !ok || !call.Call.IsInvoke() || call.Call.Method.Name() != "Next" {
+				delegates = false
+				return
+			}
+			pv := valueProv(call.Call.Value, provEnv{})
+			if pp, isP := pv.root.(*ssa.Parameter); !isP || pp != fn.Params[0] || len(pv.fields) != 1 {
+				delegates = false
+			}
+		})
+		if delegates && !reads && nRet > 0 {
+			r.discharged("deque.dequeIterator.Next|terminates-after-back", fn.Pos(), "Next hands on the answer of the inner snapshot iterator (which ends by itself)")
+			r.discharged("deque.dequeIterator.Next|end-return#1", fn.Pos(), "no position comparison: the end is the inner iterator's")
+			return
+		}
+	}
 	// the cursor: the index value used to read d.a
 	cursorPaths := map[string]bool{}
 	instrs(fn, func(b *ssa.BasicBlock, i int, in ssa.Instruction) {
